@@ -138,6 +138,7 @@ type Exec struct {
 	notes       []string
 	lockHeld    string // name of ghost var for lock set
 	simplePure  map[*ssa.Function]int
+	inlinable   map[*ssa.Function]bool
 	entry       *State
 	boxDecl     map[string]bool
 	top         topFrame
@@ -163,7 +164,7 @@ type specFnInfo struct {
 func newExec(p *Program, w *World) *Exec {
 	e := &Exec{P: p, W: w, S: newScript(), heapSort: map[string]string{}, heapGoTy: map[string]types.Type{}, epochs: map[int]*epochDef{}, epochTop: map[int]string{}, epochMem: map[string]string{},
 		oblCount: map[string]int{}, Assumptions: map[string]bool{}, specFnDone: map[string]*specFnInfo{}, axiomsDone: map[string]bool{},
-		simplePure: map[*ssa.Function]int{}, boxDecl: map[string]bool{}, allAllocs: map[string]bool{}, exceptTerms: map[string]string{}, mapKeyCands: map[string][]string{}}
+		simplePure: map[*ssa.Function]int{}, inlinable: map[*ssa.Function]bool{}, boxDecl: map[string]bool{}, allAllocs: map[string]bool{}, exceptTerms: map[string]string{}, mapKeyCands: map[string][]string{}}
 	e.heapSort[topVar] = "Int"
 	return e
 }
@@ -370,6 +371,24 @@ func (e *Exec) frameEpoch(st *State) {
 	st.Vars[topVar] = nt
 	e.epochs[ep] = &epochDef{frame: true, prev: prev, oldTop: oldTop, newTop: nt}
 	e.epochTop[ep] = nt
+}
+
+// frameEpochAbove: every object heap keeps its content on refs <= mark and becomes unknown above it.
+func (e *Exec) frameEpochAbove(st *State, mark string) {
+	prev := st.clone()
+	curTop := e.get(st, topVar)
+	e.nextEp++
+	ep := e.nextEp
+	nv := map[string]string{}
+	for k, v := range st.Vars {
+		if !isObjectHeap(k) {
+			nv[k] = v
+		}
+	}
+	st.Epoch = ep
+	st.Vars = nv
+	e.epochs[ep] = &epochDef{frame: true, prev: prev, oldTop: mark, newTop: curTop}
+	e.epochTop[ep] = curTop
 }
 
 func (e *Exec) bumpTop(st *State) {
